@@ -176,6 +176,7 @@ type c06Case struct {
 	ProcOrder int         `json:"processor_order,omitempty"` // family "peers": a user post-processor depending on peer p0, Ordered with this Order (-1: unordered)
 	Neutral   int         `json:"neutral_mask,omitempty"`    // family "peers": holders of the same points that provide nothing (bit 0: named to sort first, bit 1: last)
 	Peers     []string    `json:"peer_names,omitempty"`      // family "peers": names of the c6Peer holders ("" = default name)
+	Preset    bool        `json:"fields_preset,omitempty"`   // the all-optional consumer is registered with every field already holding unregistered objects
 	Zero      int         `json:"zero_size_mask,omitempty"`  // family "zero-size": which of Z1,Z2,Z3 are registered
 	Sealed    int         `json:"sealed_mask,omitempty"`     // family "sealed": which of TS1,TS2 (implementers of a sealed interface) are registered
 }
@@ -217,6 +218,14 @@ func c06Gen(c *core.Ctx) func(yield func(c06Case) bool) {
 				}
 			}
 			return true
+		})
+		if !ok {
+			return
+		}
+		// the all-optional consumer registered with every field already set
+		c06Pops(small, func(pop []scen.Inst) bool {
+			ok = yield(c06Case{Pop: pop, Preset: true})
+			return ok
 		})
 		if !ok {
 			return
@@ -406,6 +415,11 @@ func c06Run(c *core.Ctx) {
 			if len(cs.Peers) > 0 || cs.Zero != 0 || cs.Sealed != 0 {
 			} else if cs.Kind == "" {
 				call = &c6All{}
+				if cs.Preset {
+					dA, dB := &scen.TA{Nm: scen.Nm{Id: "decoy"}}, &scen.TB{Nm: scen.Nm{Id: "decoy"}}
+					*call = c6All{PA: dA, F1: dB, F2: dB, F12: dB, SPA: []*scen.TA{dA}, S1: []scen.I1{dB}, S2: []scen.I2{dB}, SA: []any{dB}, A: dB,
+						FnP: dA, Fn1: []scen.I1{dB}, FnA: []scen.I2{dB}, FnAB: []scen.I2{dB}, FnS: []scen.I1{dB}, FnB: dB}
+				}
 				comps = append(comps, call)
 				user["verif/props/c6All"] = true
 			} else {
@@ -432,7 +446,7 @@ func c06Run(c *core.Ctx) {
 			cc := cs
 			cc.Choices = ch.Choices()
 			key := func(kind string) string {
-				return "C06/" + kind + "/" + core.Hash(cs.Pop, cs.Kind, cs.Desc, cs.Peers, cs.Zero, cs.Sealed, cs.Neutral, cs.ProcOrder, cc.Choices)
+				return "C06/" + kind + "/" + core.Hash(cs.Pop, cs.Kind, cs.Desc, cs.Peers, cs.Zero, cs.Sealed, cs.Neutral, cs.ProcOrder, cs.Preset, cc.Choices)
 			}
 			adm := func(kind string) []string {
 				pred := c6Pred(kind)
@@ -450,10 +464,14 @@ func c06Run(c *core.Ctx) {
 				c.Report(key("panic"), "panic", "start-up did not return normally: "+o.Panic+o.Abort, cc)
 				return
 			}
+			untouched := "-" // what a point without admissible provider holds afterwards
+			if cs.Preset {
+				untouched = "decoy"
+			}
 			single := func(field string, got any, want []string) bool {
 				g := scen.IdOf(got)
 				if len(want) == 0 {
-					if g != "-" {
+					if g != untouched {
 						c.Report(key("unsound-"+field), "unsound", fmt.Sprintf("%s received %s although no registered component is admissible", field, g), cc)
 						return false
 					}
@@ -468,6 +486,9 @@ func c06Run(c *core.Ctx) {
 				return false
 			}
 			slice := func(field string, got []string, want []string) bool {
+				if len(want) == 0 && cs.Preset {
+					want = []string{"decoy"} // left as registered
+				}
 				sort.Strings(got)
 				if fmt.Sprint(got) != fmt.Sprint(want) {
 					c.Report(key("slice-"+field), "slice-mismatch", fmt.Sprintf("%s holds %v, want every admissible component exactly once: %v", field, got, want), cc)
